@@ -160,7 +160,7 @@ def _empty_ok(seq):
 
 # ---------------------------------------------------------------- planning
 
-FN_FLAGSETS = ['E', 'DE', '', 'EI', 'DEW', 'EU', 'DEC']
+FN_FLAGSETS = ['E', 'DE', '', 'EI', 'DEW', 'EU', 'DEC', 'EWU']
 GL_FLAGSETS = ['E', 'GE', 'GDE', 'GXE', 'LE', 'GZE', 'GEO', 'GDEW', 'GXDEO', '', 'GLDEI', 'GEWO']
 BYTES_FN_FLAGSETS = ['E', 'DEW', 'EI']
 BYTES_GL_FLAGSETS = ['GE', 'GEO', 'GEWO', 'GDEW', 'GEZ', 'GXEW']
@@ -169,7 +169,7 @@ LIST_POOL_FN = ['*', 'a*', '.*', '*.a', '!*.a', '[!a]*', '@(a|b)', '!(a)', '\\!a
 LIST_POOL_GL = ['*', 'a/*', '**', '**/.a', '!*.a', '*/', '!(a)', '!a*', '.*', '*.a', '**/a|!b', '{a,.a}/*', '-a', '!**/?a',
                 '-*/a', 'a\\x7cb/*', '\\x7ba,b\\x7d']
 LIST_FLAGS_FN = ['NE', 'NME', 'NEA', 'NES', 'NEB', 'E', 'NDE', 'NESB', 'NEAS', 'ES', 'EB', 'ERS', 'ERB', 'NERSB']
-LIST_FLAGS_GL = ['GNE', 'GNME', 'GNEA', 'GNES', 'GNEB', 'GE', 'GNDE', 'GNEO', 'GNEAO', 'GES', 'GEB', 'GXNE', 'GERS', 'GERB']
+LIST_FLAGS_GL = ['GNE', 'GNME', 'GNEA', 'GNES', 'GNEB', 'GE', 'GNDE', 'GNEO', 'GNEAO', 'GES', 'GEB', 'GXNE', 'GERS', 'GERB', 'NEA', 'NA']
 
 
 def plan(tier, seed):
